@@ -174,3 +174,82 @@ Example C06_ex_quiet_tmo :
   queue w = [] /\ tasks w = [] /\ length (wsts w) = 1%nat /\
   forallb (fun s => match s_ph s, s_obj s with Armed, None => false | _, _ => true end) (wsts w) = true.
 Proof. vm_compute. repeat split. Qed.
+
+(* ================================================================== several awaited channels (layer model Model/WaitChannels.v)
+   One wait of waitEvent with a list [cs] of awaited channels, per channel one temporary handler for <name> and one for
+   <name>_done, one generate_events handler; [reach cs obj tmo steps] is its state after ANY sequence of steps (dispatch of
+   an event named <name> on any channels, dispatch of a <name>_done, generate_events, a pass over the tasks).
+   [cmatch] is getHandlers' rule (handler channel '*', dispatch channel '*', or equal). *)
+From Circ Require Import Model.WaitChannels Proofs.WaitChannelsP.
+
+Theorem C06_mc_no_crash : forall cs obj tmo steps, w_crash (reach cs obj tmo steps) = false.
+Proof. exact WaitChannelsP.no_crash. Qed.
+Print Assumptions C06_mc_no_crash.
+
+(* (1) an armed wait latches onto a dispatched event iff the event is dispatched on at least one awaited channel (and is
+   the awaited object, if one was given); it latches onto exactly that event, removes its <name> temporaries on all
+   channels, and an event that does not qualify leaves the state untouched; once latched, the event never changes -
+   in particular an event matching several awaited channels, or a later one, does not latch a second time *)
+Theorem C06_mc_latch : forall cs obj tmo steps eid dcs, let s := reach cs obj tmo steps in armed s ->
+  let s' := do_step s (Dispatch eid dcs) in
+  (w_run s' = true <-> awaited cs dcs = true /\ WaitChannels.obj_ok obj eid = true) /\
+  (w_run s' = true -> w_event s' = Some eid /\ w_ev s' = []) /\
+  (w_run s' = false -> s' = s).
+Proof. exact latch_iff. Qed.
+Print Assumptions C06_mc_latch.
+
+Theorem C06_mc_latch_once : forall cs obj tmo steps e x, let s := reach cs obj tmo steps in
+  w_event s = Some e -> w_event (do_step s x) = Some e.
+Proof. exact latch_once. Qed.
+Print Assumptions C06_mc_latch_once.
+
+(* (2) the caller is resumed at most once (result and TimeoutError together), after which nothing of the wait is left ... *)
+Theorem C06_mc_at_most_once : forall cs obj tmo steps, let s := reach cs obj tmo steps in
+  (w_resumed s + w_thrown s <= 1)%nat /\
+  ((w_resumed s + w_thrown s)%nat = 1%nat -> no_temporaries s /\ w_task_wait s = false /\ w_task_tmo s = false).
+Proof. exact WaitChannelsP.at_most_once. Qed.
+Print Assumptions C06_mc_at_most_once.
+
+(* ... exactly once when the latched event finishes (its <name>_done goes to the event's channels, one of which is awaited) ... *)
+Theorem C06_mc_result_exactly_once : forall cs obj tmo steps e dcs, let s := reach cs obj tmo steps in
+  w_event s = Some e -> live s -> w_resumed s = O -> awaited cs dcs = true ->
+  let s' := do_step (do_step s (DispatchDone e dcs)) RunTasks in
+  w_resumed s' = 1%nat /\ w_thrown s' = O /\ no_temporaries s' /\ w_crash s' = false.
+Proof. exact result_exactly_once. Qed.
+Print Assumptions C06_mc_result_exactly_once.
+
+(* ... and exactly once when the timeout expires, whether or not an event had been latched, timeout 0 included *)
+Theorem C06_mc_timeout_exactly_once : forall cs obj tmo steps k, let s := reach cs obj tmo steps in
+  live s -> w_resumed s = O -> w_timeout s = Z.of_nat k ->
+  let s' := do_step (fold_left do_step (repeat Tick (S k)) s) RunTasks in
+  w_thrown s' = 1%nat /\ w_resumed s' = O /\ no_temporaries s' /\ w_crash s' = false.
+Proof. exact timeout_exactly_once. Qed.
+Print Assumptions C06_mc_timeout_exactly_once.
+
+(* (3) residue: while the wait is armed exactly the installed set remains (one <name> and one <name>_done temporary per
+   awaited channel, the tick handler iff a timeout was given); on every exit path - result, timeout, pending TimeoutError -
+   all temporaries on all channels are gone; a latched wait has no <name> temporary left *)
+Theorem C06_mc_residue : forall cs obj tmo steps, let s := reach cs obj tmo steps in
+  (armed s -> w_ev s = cs /\ w_done s = cs /\ w_tick s = (0 <=? tmo)) /\
+  (w_resumed s = 1%nat \/ w_thrown s = 1%nat \/ w_task_tmo s = true -> no_temporaries s) /\
+  (w_run s = true -> w_ev s = []).
+Proof. exact WaitChannelsP.residue. Qed.
+Print Assumptions C06_mc_residue.
+
+(* three awaited channels a, b, c: an event on d is ignored, an event on (d, b) latches (once, although (b, '*') would
+   match four ways), its <name>_done resumes the caller once and nothing is left; and the same wait with timeout 1
+   and no matching event expires after two generate_events *)
+Example C06_ex_mc_result :
+  let s := reach [CNamed 0; CNamed 1; CNamed 2] None 5
+             [Tick; Dispatch 7 [CNamed 3]; Dispatch 8 [CNamed 3; CNamed 1]; Dispatch 9 [CNamed 1; CStar]; Tick;
+              RunTasks; DispatchDone 8 [CNamed 3; CNamed 1]; Tick; RunTasks; Tick; RunTasks] in
+  w_event s = Some 8%nat /\ w_resumed s = 1%nat /\ w_thrown s = O /\ no_temporaries s /\ w_crash s = false.
+Proof. vm_compute. repeat split. Qed.
+Example C06_ex_mc_armed :
+  let s := reach [CNamed 0; CNamed 1; CNamed 2] None 5 [Tick; Dispatch 7 [CNamed 3]; RunTasks] in
+  armed s /\ w_ev s = [CNamed 0; CNamed 1; CNamed 2] /\ w_done s = [CNamed 0; CNamed 1; CNamed 2] /\ w_tick s = true.
+Proof. vm_compute. repeat split. Qed.
+Example C06_ex_mc_timeout :
+  let s := reach [CNamed 0; CNamed 1; CNamed 2] None 1 [Tick; Dispatch 7 [CNamed 3]; RunTasks; Tick; RunTasks] in
+  w_event s = None /\ w_thrown s = 1%nat /\ w_resumed s = O /\ no_temporaries s /\ w_crash s = false.
+Proof. vm_compute. repeat split. Qed.
